@@ -20,6 +20,10 @@ inline void check_range_doesnt_cross_app_sbx_boundary(const void* ptr,
     ptr_start_val,
     "Performing memory operation memset/memcpy on a null pointer");
   auto ptr_end_val = ptr_start_val + size - 1;
+  // The end of the range must not wrap around the address space. A wrapped end
+  // could otherwise land back inside the sandbox the range started in.
+  detail::dynamic_check(size == 0 || ptr_end_val >= ptr_start_val,
+                        "range has wrapped around the address space");
 
   auto ptr_start = reinterpret_cast<void*>(ptr_start_val);
   auto ptr_end = reinterpret_cast<void*>(ptr_end_val);
